@@ -1,4 +1,6 @@
 import RgVerif.Model.LineBuffer
+import RgVerif.Model.ReadByLine
+import RgVerif.Driver.SearcherCommon
 namespace RgVerif.Driver.C02
 open RgVerif RgVerif.LineBuffer
 
@@ -65,7 +67,24 @@ def handle (cmd : String) (args : List Sx) : String :=
   | "c02.lb", [cfg, inp, script, ops] =>
     match parseCfg cfg, inp.bytes?, parseScript script, parseOps ops with
     | some cfg, some inp, some script, some ops =>
-      ";".intercalate (transcript (LB.init cfg) ⟨inp, script⟩ ops)
+      ";".intercalate (transcript (LB.init cfg) ⟨inp, script, 0⟩ ops)
+    | _, _, _, _ => "bad-op"
+  -- `c02.rbl cfg matcher inp (script …) cap|- heap|- sink`: `Searcher::search_reader` in the model
+  -- (pass-through decoder with its BOM peek, roll buffer, ReadByLine over Core)
+  | "c02.rbl", [cfg, m, inp, script, cap, heap, sink] =>
+    let optN : Sx → Option (Option Nat) := fun x =>
+      match x with
+      | .atom "-" => some none
+      | x => (x.nat?).map some
+    match SearcherCommon.parseCfg cfg, SearcherCommon.parseMatcher m, inp.bytes?, parseScript script, optN cap,
+          optN heap, SearcherCommon.parseSink sink with
+    | some cfg, some mk, some inp, some script, some cap, some heap, some σ =>
+      SearcherCommon.showRun (Searcher.searchReader cfg (mk inp false) σ heap cap ⟨inp, script, 0⟩)
+    | _, _, _, _, _, _, _ => "bad-op"
+  -- `c02.slice cfg matcher inp sink`: `Searcher::search_slice` in the model (the spec side of C02)
+  | "c02.slice", [cfg, m, inp, sink] =>
+    match SearcherCommon.parseCfg cfg, SearcherCommon.parseMatcher m, inp.bytes?, SearcherCommon.parseSink sink with
+    | some cfg, some mk, some inp, some σ => SearcherCommon.showRun (Searcher.searchSlice cfg (mk inp false) σ inp)
     | _, _, _, _ => "bad-op"
   | "c02.spec", [cfg, inp, a, n] =>
     match parseCfg cfg, inp.bytes?, a.nat?, n.nat? with
